@@ -209,6 +209,14 @@ def truncF (v : Float) : Int := v.toInt64.toInt
     for `q < 0`) — not `floor`: `truncQ (-5/2) = -2`. -/
 def truncQ (q : Rat) : Int := if 0 ≤ q then q.floor else -((-q).floor)
 
+/-- the exact rational value of a finite double (`frexp`: `v = m·2^e`, `m·2^53` is an integer); only used by
+    the driver to print `truncQ` beside `truncF` -/
+def floatToRat (v : Float) : Rat :=
+  let (m, e) := v.frExp
+  let mi : Int := (m * 9007199254740992.0).toInt64.toInt
+  let k := e - 53
+  if 0 ≤ k then ((mi * (2 : Int) ^ k.toNat : Int) : Rat) else mkRat mi (2 ^ (-k).toNat)
+
 /-! ## driver -/
 
 def triples (xs : List Float) : List (List Float) :=
@@ -239,7 +247,7 @@ def handle (a : Args) : String :=
     let lo := Float.ofInt (a.int "lo")
     let hi := Float.ofInt (a.int "hi")
     let ys := stretchList xs lo hi
-    s!"float={showFloats ys} int={showInts (ys.map truncF)}"
+    s!"float={showFloats ys} int={showInts (ys.map truncF)} intq={showInts (ys.map fun y => truncQ (floatToRat y))}"
   | "consts" =>
     s!"m={showFloats (rgb2xyzMF.flatten ++ xyz2rgbMF.flatten ++ sepiaMF.flatten ++ greyWF ++ labWhiteF)}"
   | k => s!"error=unknown-kind-{k}"
